@@ -56,6 +56,24 @@ def build_ops(repo, seed):
         texts3.append(ctab.render_v3000(mol, V3Style(kw_shuffle=True, split="random", blanks=2, dt_symbols=True), rng))
         if ctab.v2000_representable(mol) and len(texts2) < 8:
             texts2.append(ctab.render_v2000(mol, V2Style(encoding="lines", per_line=3), rng))
+    # atoms carrying isotope AND radical (attribute blocks with two keys), and one drawing in several label states (identical atom lines
+    # across inputs): places where set order or a cache keyed by text would show
+    from ..oracles.ctab import Atom, Mol
+    for k in range(4):
+        base = G.random_organic(rng, 3, 12)
+        for a in base.atoms:
+            a.x, a.y, a.z = round(a.x, 4), round(a.y, 4), round(a.z, 4)
+            a.mass = min(a.mass, 999)
+        both = base.copy()
+        for a in both.atoms[: 1 + k % 3]:
+            a.mass, a.rad = (13 if a.sym != "H" else 2), rng.choice([1, 2, 3])
+        plain = base.copy()
+        for a in plain.atoms:
+            a.mass = a.rad = a.chg = 0
+        for m in (both, plain, base):
+            texts3.append(ctab.render_v3000(m, V3Style(), rng))
+            if ctab.v2000_representable(m):
+                texts2.append(ctab.render_v2000(m, V2Style(encoding="lines"), rng))
     files = common.corpus_files(repo)
     for f in rng.sample(files, min(10, len(files))):
         t = open(f).read()
@@ -66,6 +84,8 @@ def build_ops(repo, seed):
     for t in texts3 + texts2:
         add("read", t); add("canon_text", t); add("ser_text", t); add("write_text", t)
     bridge.import_tucan(repo)
+    for s in ("CH3/(1-4)(2-4)(3-4)/(4:rad=2,mass=13)", "C2H6O/(1-7)(2-7)(3-7)(4-8)(5-8)(6-9)(7-8)(8-9)/(9:mass=18)(9:rad=2)(1:mass=2)", "He2//(2:mass=3,rad=1)(1:rad=1)"):
+        add("parse", s); add("norm", s); add("write_tucan", s)
     for k in range(24):
         s = GS.random_sentence(rng, 25)
         if s.startswith("/"):
